@@ -206,8 +206,11 @@ class Report:
             if path in seen:
                 continue
             seen.add(path)
-            print('VIOLATION property=%s replay=%s%s' % (self.prop, path, '' if found else ' no-failing-input-found'))
-            print('  ' + what[:400])
+            if len(seen) <= 12:
+                print('VIOLATION property=%s replay=%s%s' % (self.prop, path, '' if found else ' no-failing-input-found'))
+                print('  ' + what[:400])
+            elif len(seen) == 13:
+                print('  ... further violations are in replays/ and counted below')
         ev = {'property_id': self.prop, 'tier': self.tier, 'seed': self.seed, 'level': self.level,
               'coverage': self.coverage, 'assumptions': self.assumptions, 'wall_s': round(wall, 2),
               'violations': len(seen)}
